@@ -106,7 +106,7 @@ theorem C11_panic_contained (E : Env) (fuel : Nat) (hr : E.opts.recover = true) 
   · split at h
     · simp at h
     · revert h
-      generalize parseRuleWrap E (parseExpr E fuel) fuel _ (read E (initState E)) = o
+      generalize parseRuleWrap E (parseExpr E fuel) fuel _ (startState E) = o
       cases o with
       | oof => simp [finish]
       | panic p' s' => simp [finish, hr]
